@@ -1,9 +1,11 @@
 // Unit mft_name (C14): FileAndHash::validate_file_name (src/repository/manifest.rs).
-// Verus proves the unbounded part (any stem length): acceptance implies the RFC 9286 shape
-// up to the alphabetic test of the 3-byte extension, and every shape violation is rejected.
-// The extension test goes through `slice::Iter::all(closure)`, whose vstd specification says
-// nothing about the result; that clause is decided by Kani (unit mft_name.k) on the compiled code.
+// Verus proves the full equivalence, unbounded (any stem length): the function returns Ok exactly
+// for the names of RFC 9286 4.2.2 (valid_mft_name).  The extension test goes through
+// `slice::Iter::all(closure)`; vstd specifies `all` over the prophetic `remaining()` sequence of the
+// iterator, and `lemma_iter_seq` (extensionality) identifies that sequence with the bytes of `n`.
+// Kani (unit mft_name.k) re-checks the same equivalence bounded on the compiled code.
 use vstd::prelude::*;
+use vstd::std_specs::iter::IteratorSpec;
 
 verus! {
 
@@ -25,37 +27,117 @@ pub open spec fn valid_mft_name(s: Seq<u8>) -> bool {
     exists|k: int| shape(s, k) && is_alpha(s[k + 1]) && is_alpha(s[k + 2]) && is_alpha(s[k + 3])
 }
 
+/// the sequence of references a slice iterator over v yields
+pub open spec fn refs<'a, T>(v: Seq<T>) -> Seq<&'a T> { v.map_values(|x: T| &x) }
+/// every sequence of references that points element-wise at v *is* refs(v) (extensionality);
+/// triggered by `s.len()`, so it identifies `n.iter().remaining()` of an unnamed temporary
+pub proof fn lemma_iter_seq<'a, T>(v: Seq<T>)
+    ensures forall|s: Seq<&'a T>| s.len() == v.len() && (forall|j: int| 0 <= j < s.len() ==> *(#[trigger] s[j]) == v[j])
+                ==> #[trigger] s.len() == refs(v).len() && s == refs(v),
+{
+    assert forall|s: Seq<&'a T>| s.len() == v.len() && (forall|j: int| 0 <= j < s.len() ==> *(#[trigger] s[j]) == v[j])
+        implies #[trigger] s.len() == refs(v).len() && s == refs(v) by { assert(s =~= refs(v)); }
+}
+
+/// what the stem loop establishes about `s` when it has consumed the first `p + 1` bytes and
+/// stopped at a dot: the FIRST dot of s is at p (stem characters are not dots)
+pub open spec fn first_dot_at(s: Seq<u8>, p: int) -> bool {
+    0 <= p < s.len() && s[p] == 0x2e && forall|i: int| 0 <= i < p ==> stem_char(#[trigger] s[i])
+}
+/// no byte of the prefix of length m is a dot, all are stem characters
+pub open spec fn stem_prefix(s: Seq<u8>, m: int) -> bool {
+    forall|i: int| 0 <= i < m ==> stem_char(#[trigger] s[i])
+}
+
+/// a valid name has its (only possible) witness at the first dot
+pub proof fn lemma_witness_is_first_dot(s: Seq<u8>, p: int)
+    requires first_dot_at(s, p), valid_mft_name(s),
+    ensures p >= 1, s.len() == p + 4, shape(s, p), is_alpha(s[p + 1]), is_alpha(s[p + 2]), is_alpha(s[p + 3]),
+{
+    let k = choose|k: int| shape(s, k) && is_alpha(s[k + 1]) && is_alpha(s[k + 2]) && is_alpha(s[k + 3]);
+    if k < p { assert(stem_char(s[k])); }
+    if p < k { assert(stem_char(s[p])); }
+}
+/// a name with a byte at m that is neither a dot nor a stem character after a dot-free stem prefix is invalid
+pub proof fn lemma_bad_stem_byte(s: Seq<u8>, m: int)
+    requires 0 <= m < s.len(), stem_prefix(s, m), !stem_char(s[m]), s[m] != 0x2e,
+    ensures !valid_mft_name(s),
+{
+    if valid_mft_name(s) {
+        let k = choose|k: int| shape(s, k) && is_alpha(s[k + 1]) && is_alpha(s[k + 2]) && is_alpha(s[k + 3]);
+        if k < m { assert(stem_char(s[k])); }
+        if m < k { assert(stem_char(s[m])); }
+    }
+}
+/// a name without any dot is invalid
+pub proof fn lemma_no_dot(s: Seq<u8>)
+    requires stem_prefix(s, s.len() as int),
+    ensures !valid_mft_name(s),
+{
+    if valid_mft_name(s) {
+        let k = choose|k: int| shape(s, k) && is_alpha(s[k + 1]) && is_alpha(s[k + 2]) && is_alpha(s[k + 3]);
+        assert(stem_char(s[k]));
+    }
+}
+
 pub struct FileAndHash;
 impl FileAndHash {
     //@fn src/repository/manifest.rs :: impl FileAndHash<Bytes, Bytes> :: validate_file_name
     //@sub R1 "fn valid_rfc9286_character(c: u8) -> bool {" "fn valid_rfc9286_character(c: u8) -> (b: bool) ensures b == stem_char(c) {"
+    // closure contract for the brace-less closure of `all(..)`, written as two insertions around the unchanged
+    // body text so that an edit of the body is checked against the contract instead of losing the anchor
+    //@sub R2 ".all(|c| " ".all(|c| -> (b: bool) ensures b == is_alpha(*c) { "
+    //@sub R2 "()) {" "() }) {"
     //@spec
         ensures
-            // acceptance implies the shape; equivalently, every violation of the shape is rejected
-            r.is_ok() ==> exists|k: int| shape(name@, k),
+            // accepted exactly the RFC 9286 4.2.2 names (both directions, any length)
+            r.is_ok() <==> valid_mft_name(name@),
     //@/spec
     //@loop "while let Some((c, tail)) = n.split_first()"
             invariant_except_break
-                forall|i: int| 0 <= i < name@.len() - n@.len() ==> stem_char(#[trigger] name@[i]),
+                stem_prefix(name@, name@.len() - n@.len()),
             invariant
                 n@.len() <= name@.len(),
                 n@ == name@.subrange(name@.len() - n@.len(), name@.len() as int),
                 name@.len() >= 1 ==> name@[0] != 0x2e,
             ensures
-                n@.len() == 0
-                || (name@.len() - n@.len() >= 1 && name@[name@.len() - n@.len() - 1] == 0x2e
-                    && forall|i: int| 0 <= i < name@.len() - n@.len() - 1 ==> stem_char(#[trigger] name@[i])),
+                // input exhausted without a dot, or stopped behind the FIRST dot
+                (n@.len() == 0 && stem_prefix(name@, name@.len() as int))
+                || first_dot_at(name@, name@.len() - n@.len() - 1),
             decreases n@.len(),
     //@/loop
-    //@ghost before "if n.len() != 3"
-        proof {
-            // either a dot was found at k = len - |n| - 1 (all bytes before it are stem characters)
-            // or the input was exhausted (n is empty, so the length test below rejects)
-            if n@.len() == 3 {
-                assert(name@[name@.len() - 4] == 0x2e);
-                assert(name@.len() - 4 != 0);
-                assert(shape(name@, name@.len() - 4));
+    //@ghost after "else if !valid_rfc9286_character(*c) {"
+                proof { lemma_bad_stem_byte(name@, name@.len() - n@.len() - 1); }
+    //@/ghost
+    //@ghost before "return Err(\"manifest extension"
+            proof {
+                let p = name@.len() - n@.len() - 1;
+                if first_dot_at(name@, p) {
+                    if valid_mft_name(name@) {
+                        // the witness is p, so |n| == 3 and the three bytes of n are letters: `all` cannot have been false
+                        lemma_witness_is_first_dot(name@, p);
+                        lemma_iter_seq(n@);
+                        assert forall|i: int| 0 <= i < 3 implies is_alpha(*(#[trigger] refs(n@)[i])) by {
+                            assert(n@[i] == name@[p + 1 + i]);
+                        }
+                    }
+                } else {
+                    lemma_no_dot(name@);
+                }
             }
+    //@/ghost
+    //@ghost before "Ok(())"
+        proof {
+            let p = name@.len() - n@.len() - 1;
+            lemma_iter_seq(n@);
+            assert(first_dot_at(name@, p));
+            assert(p != 0);
+            assert(shape(name@, p));
+            assert forall|i: int| 0 <= i < 3 implies is_alpha(#[trigger] name@[p + 1 + i]) by {
+                assert(*refs(n@)[i] == n@[i]);
+                assert(n@[i] == name@[p + 1 + i]);
+            }
+            assert(is_alpha(name@[p + 1 + 0]) && is_alpha(name@[p + 1 + 1]) && is_alpha(name@[p + 1 + 2]));
         }
     //@/ghost
     //@end
@@ -82,6 +164,8 @@ proof fn reach_valid() {
     let s: Seq<u8> = seq![0x61u8, 0x2e, 0x72, 0x6f, 0x61];
     assert(shape(s, 1));
     assert(valid_mft_name(s));
+    assert(first_dot_at(s, 1));
+    assert(stem_prefix(s, 1));
 }
 
 } // verus!
